@@ -61,6 +61,43 @@ fn parse_rfc1123(s: &str) -> Option<i64> {
     Some(days * 86400 + h * 3600 + mi * 60 + se)
 }
 
+/// When the agent removed attribution records, relative to when client connections were opened (from the event log)
+pub struct AuditTrace {
+    connect_seq: BTreeMap<u64, u64>,      // connection id -> event sequence number of its connect
+    removes: Vec<(u64, u16)>,             // (event sequence number, source port) of each successful removal
+}
+impl AuditTrace {
+    pub fn from_events() -> Self {
+        let mut connect_seq = BTreeMap::new();
+        let mut removes = Vec::new();
+        vrt::with(|w| {
+            for e in w.events.iter() {
+                if e.kind == "net" && e.text.starts_with("connect conn=") {
+                    if let Some(id) = e.text["connect conn=".len()..].split(' ').next().and_then(|x| x.parse::<u64>().ok()) {
+                        connect_seq.insert(id, e.seq);
+                    }
+                } else if e.kind == "kern" && e.text.starts_with("user remove audit_map key=[") && e.text.ends_with("-> 0") {
+                    // key = protocol (4 bytes) + source port (4 bytes, native order), printed as hex bytes
+                    let inner = e.text["user remove audit_map key=[".len()..].split(']').next().unwrap_or("");
+                    let bytes: Vec<u8> = inner.split(',').filter_map(|x| u8::from_str_radix(x.trim(), 16).ok()).collect();
+                    if bytes.len() == 8 {
+                        let port = u32::from_ne_bytes([bytes[4], bytes[5], bytes[6], bytes[7]]) as u16;
+                        removes.push((e.seq, port));
+                    }
+                }
+            }
+        });
+        AuditTrace { connect_seq, removes }
+    }
+    /// was the record of `port` removed after connection `from` was opened and before connection `to` was opened?
+    pub fn consumed_between(&self, port: u16, from: u64, to: u64) -> bool {
+        match (self.connect_seq.get(&from), self.connect_seq.get(&to)) {
+            (Some(a), Some(b)) => self.removes.iter().any(|(s, p)| *p == port && s > a && s < b),
+            _ => false,
+        }
+    }
+}
+
 pub fn check_proxy(run: &mut Run) {
     let plan = run.plan.clone();
     let enabled: Vec<String> = plan["oracles"].as_array().map(|a| a.iter().filter_map(|x| x.as_str().map(|s| s.to_string())).collect()).unwrap_or_default();
@@ -76,6 +113,7 @@ pub fn check_proxy(run: &mut Run) {
     let faults_flowing = plan["faulty"].as_bool().unwrap_or(false);
     let conns = run.conns.clone();
     let phases = run.phases.clone();
+    let audit_trace = AuditTrace::from_events();
     let faulted_upstream: Vec<vrt::net::ConnInfo> = vrt::net::conn_infos().into_iter().filter(|ci| ci.initiator.tgid == vrt::procs::AGENT_PID && !ci.faults.is_empty()).collect();
     let mut viol: Vec<(String, String, String)> = Vec::new();
     let mut stats: BTreeMap<String, i64> = BTreeMap::new();
@@ -107,6 +145,12 @@ pub fn check_proxy(run: &mut Run) {
         let recorded_dst = match &cp.inject { Some(d) => d.clone(), None => cp.dst.clone() };
         let protected = [hosts::WIRE, hosts::GA, hosts::IMDS].contains(&cp.dst.as_str());
         let mut conn_disturbed = false;
+        // the listed C07 finding shows in these checks too: a connection that reuses the source port of a client that
+        // vanished before the proxy consumed its record is evaluated with that record (or loses its own record to it)
+        let known_race = conns.iter().any(|(pj, cq, crq)| {
+            pj <= pi && cq.idx != cp.idx && crq.connected && crq.src_port == cr.src_port && (cq.reqs.is_empty() || cq.close != "normal") && crq.conn_id < cr.conn_id && !audit_trace.consumed_between(crq.src_port, crq.conn_id, cr.conn_id)
+        });
+        let race_tag = if known_race { " [source port reused after a client vanished before the proxy consumed its record]" } else { "" };
         for (ri, rq) in cp.reqs.iter().enumerate() {
             known_tokens.insert(rq.tok.clone(), ());
             let res = cr.results.get(ri);
@@ -121,6 +165,8 @@ pub fn check_proxy(run: &mut Run) {
             let exempt = is_exempt(&rq.method, &rq.target);
             let limit = if exempt { LARGE_LIMIT } else { LOW_LIMIT };
             let too_large = body_len > limit;
+            // not an HTTP request at all (the request line does not start with a method token): 400, never relayed
+            let malformed = !rq.method.bytes().all(|b| b.is_ascii_alphabetic()) || rq.method.is_empty();
             // reference outcome(s): against the document in force, and the previous one during a transition
             let mut outcomes = vec![rbac::endpoint_outcome(&phase.doc, &recorded_dst, &caller, &rq.target)];
             for pd in phase.prev_docs.iter() {
@@ -156,13 +202,13 @@ pub fn check_proxy(run: &mut Run) {
             if on("C01") {
                 if relayed {
                     if !attributed {
-                        viol.push(("C01".into(), "relayed without attribution".into(), format!("tok={} dst={} {} {} reached {}", rq.tok, cp.dst_name, rq.method, rq.target, recvs[0].host)));
+                        viol.push(("C01".into(), format!("relayed without attribution{}", race_tag), format!("tok={} dst={} {} {} reached {}", rq.tok, cp.dst_name, rq.method, rq.target, recvs[0].host)));
                     }
                     if traversal {
                         viol.push(("C01".into(), "traversal path relayed".into(), format!("tok={} {}", rq.tok, rq.target)));
                     }
                     if must_forbid {
-                        viol.push(("C01".into(), "relayed although the policy in force forbids".into(), format!("tok={} dst={} caller={:?} {} {}", rq.tok, recorded_dst, caller, rq.method, rq.target)));
+                        viol.push(("C01".into(), format!("relayed although the policy in force forbids{}", if attributed { "" } else { race_tag }), format!("tok={} dst={} caller={:?} {} {}", rq.tok, recorded_dst, caller, rq.method, rq.target)));
                     }
                     if provision {
                         viol.push(("C01".into(), "/provision relayed".into(), rq.tok.clone()));
@@ -183,8 +229,11 @@ pub fn check_proxy(run: &mut Run) {
                         if too_large {
                             ok_codes.extend([413, 400]);
                         }
+                        if malformed {
+                            ok_codes.push(400);
+                        }
                         if ok_codes.is_empty() && !faults_flowing {
-                            viol.push(("C14".into(), "authorised request not relayed".into(), format!("tok={} dst={} status={} {} {}", rq.tok, cp.dst_name, st, rq.method, rq.target)));
+                            viol.push(("C14".into(), format!("authorised request not relayed{}", if st == 421 { race_tag } else { "" }), format!("tok={} dst={} status={} {} {}", rq.tok, cp.dst_name, st, rq.method, rq.target)));
                         } else if !ok_codes.is_empty() && !ok_codes.contains(&st) && !(faults_flowing && st >= 500) {
                             viol.push(("C01".into(), "refusal status does not match any reason that holds".into(), format!("tok={} status={} acceptable={:?} {} {}", rq.tok, st, ok_codes, rq.method, rq.target)));
                         }
@@ -232,7 +281,12 @@ pub fn check_proxy(run: &mut Run) {
             if on("C07") {
                 // was the source port used, in this phase, by a client that vanished (no request, or abortive
                 // close) so that its record may not have been consumed when the port was reused?
-                let vanished_peer = conns.iter().any(|(pj, cq, crq)| pj <= pi && cq.idx != cp.idx && crq.connected && crq.src_port == cr.src_port && (cq.reqs.is_empty() || cq.close != "normal"));
+                // ... AND that record was still in the map when this connection was opened (the listed finding is about a
+                // record that outlives its vanished connection until the port is reused; a record that had been consumed
+                // before the reuse cannot explain anything)
+                let vanished_peer = conns.iter().any(|(pj, cq, crq)| {
+                    pj <= pi && cq.idx != cp.idx && crq.connected && crq.src_port == cr.src_port && (cq.reqs.is_empty() || cq.close != "normal") && crq.conn_id < cr.conn_id && !audit_trace.consumed_between(crq.src_port, crq.conn_id, cr.conn_id)
+                });
                 let tag = if vanished_peer { " [source port reused after a client vanished before the proxy consumed its record]" } else { "" };
                 if relayed && !attributed {
                     viol.push(("C07".into(), format!("unattributed connection evaluated with another connection's record{}", tag), format!("tok={} port={} dst={}", rq.tok, cr.src_port, cp.dst_name)));
@@ -278,7 +332,7 @@ pub fn check_proxy(run: &mut Run) {
                         }
                     }
                 }
-                if caller.elevated && !injected_self && attributed && !traversal && !too_large && !faults_flowing && outcomes.iter().all(|o| matches!(o, Outcome::Relay | Outcome::RelayAudit)) && !relayed && !provision && status.is_some() {
+                if caller.elevated && !injected_self && attributed && !traversal && !too_large && !malformed && !faults_flowing && outcomes.iter().all(|o| matches!(o, Outcome::Relay | Outcome::RelayAudit)) && !relayed && !provision && status.is_some() {
                     viol.push(("C14".into(), "authorised elevated request not relayed".into(), format!("tok={} status={:?}", rq.tok, status)));
                 }
             }
